@@ -93,11 +93,16 @@ pub struct DocOpts {
     /// document encoding: non-ASCII characters of the vocabulary are mapped to characters of
     /// this encoding whose encoded bytes are all >= 0x80
     pub enc: &'static encoding_rs::Encoding,
+    /// replace every '&' of the vocabulary by '+' (no character references: html5ever decodes them)
+    pub amp_safe: bool,
+    /// do not generate `<annotation-xml encoding=text/html>` integration points (html5ever 0.39
+    /// omits annotation-xml from its scope-boundary set, so it is not a usable reference there)
+    pub no_annotation_xml: bool,
 }
 
 impl Default for DocOpts {
     fn default() -> Self {
-        DocOpts { max_items: 14, max_depth: 5, islands: true, rawtext: true, misnest: true, comments: true, doctype: true, multibyte: true, odd_attrs: true, max_attrs: 4, small_vocab: true, lt_in_text: false, enc: encoding_rs::UTF_8 }
+        DocOpts { max_items: 14, max_depth: 5, islands: true, rawtext: true, misnest: true, comments: true, doctype: true, multibyte: true, odd_attrs: true, max_attrs: 4, small_vocab: true, lt_in_text: false, enc: encoding_rs::UTF_8, amp_safe: false, no_annotation_xml: false }
     }
 }
 
@@ -137,6 +142,7 @@ impl<'a, 't> Gen<'a, 't> {
     }
     /// map the vocabulary's non-ASCII characters into the document encoding's safe pool
     fn m(&self, s: String) -> String {
+        let s = if self.o.amp_safe { s.replace('&', "+") } else { s };
         if self.o.enc == encoding_rs::UTF_8 || s.is_ascii() {
             return s;
         }
@@ -383,6 +389,15 @@ impl<'a, 't> Gen<'a, 't> {
                             name = "div";
                         }
                     }
+                    // "well-formed HTML inside integration points": no <p>, whose implied end
+                    // tag / phantom </p> handling is real tree construction (outside the
+                    // property's claimed domain)
+                    // likewise <li>, <a>, <td>: their start tags look up / close open elements
+                    // of the same kind across the island boundary (and html5ever's scope and
+                    // "special" sets differ from the specification for MathML integration points)
+                    if well_formed && ["p", "li", "a", "td"].iter().any(|x| name.eq_ignore_ascii_case(x)) {
+                        name = "div";
+                    }
                     // self-closing syntax on a non-void HTML element is ignored by the parser
                     self.start_tag(name, Ns::Html, &[], self.o.odd_attrs, false);
                     if depth < self.o.max_depth {
@@ -479,7 +494,7 @@ impl<'a, 't> Gen<'a, 't> {
         let (name, forced): (&str, Vec<(&str, &str)>) = if ns == Ns::Svg {
             (*self.t.pick(&["foreignObject", "desc", "title", "foreignobject", "DESC"]), vec![])
         } else {
-            match self.t.below(3) {
+            match if self.o.no_annotation_xml { 1 + self.t.below(2) } else { self.t.below(3) } {
                 0 => ("annotation-xml", vec![("encoding", *self.t.pick(&["text/html", "application/xhtml+xml", "TEXT/HTML"]))]),
                 _ => (*self.t.pick(&["mi", "mo", "mn", "ms", "mtext"]), vec![]),
             }
